@@ -1405,7 +1405,7 @@ func c39(r *vkit.Run) {
 		"RST/PING/GOAWAY/WINDOW_UPDATE/SETTINGS with every declared length 0..20 and wrong setting counts, data frames, unknown types/versions, random bytes. Oracle: no panic; never (frame, error) together or (nil, nil); " +
 		"after every SUCCESSFUL ReadFrame the reader stands at 8 + declared length (nothing is demanded after an error: the only caller drops the connection); in the single-goroutine phase TotalAlloc delta of one ReadFrame <= 4*(declared length*1032 + 64 KiB) " +
 		"(valid traffic from the real writer is measured too and its peak share of the limit is recorded). Announcements of 2^30..2^32-1 bytes run in a re-executed child under ulimit -v 2 GiB (phase 4). " +
-		"Non-trivial = sequence with >= 1 header-bearing frame, or hostile stream that is not purely random bytes; distinct = hash of the wire bytes + delivery mode." + c39FURule)
+		"Non-trivial = sequence with >= 1 header-bearing frame, or hostile stream that is not purely random bytes; distinct = hash of the wire bytes + delivery mode." + c39FURule + c39WRule)
 	r.Assume("zlib stream header (SPDY/3 dictionary id) learned from the first block bfe's own writer emits; crafted blocks use stored deflate blocks only, so no dictionary content is needed")
 	st := &c39Stats{}
 	zhdr, err := c39ZlibHeader()
@@ -1421,6 +1421,7 @@ func c39(r *vkit.Run) {
 			Stream   []byte          `json:"stream"`
 			Case     json.RawMessage `json:"case"`
 			Followup json.RawMessage `json:"followup_items"`
+			Refused  json.RawMessage `json:"refused_write_items"`
 		}
 		if err := r.LoadReplay(&probe); err != nil {
 			r.Inconclusive(err.Error())
@@ -1428,6 +1429,14 @@ func c39(r *vkit.Run) {
 		}
 		r.SetMinDistinct(0)
 		r.Evals(1)
+		if probe.Refused != nil {
+			var w c39W
+			r.LoadReplay(&w)
+			ws := &c39WStats{n: map[string]int64{}, cell: map[string]int64{}}
+			c39RunW(r, ws, &w)
+			c39WFinish(r, ws)
+			return
+		}
 		if probe.Followup != nil {
 			var w c39FU
 			r.LoadReplay(&w)
@@ -1589,6 +1598,9 @@ func c39(r *vkit.Run) {
 	// ---- phase 6 (parallel): valid frames behind erroneous-but-well-framed ones (c39f.go)
 	c39FollowUp(r, zhdr)
 	phase("followup")
+	// ---- phase 7 (parallel): valid frames before, between and behind REFUSED writes (c39w.go)
+	c39RefusedWrites(r)
+	phase("refused-writes")
 	r.Count("roundtrip_sequences", st.rtSeq)
 	r.Count("roundtrip_frames_equal", st.rtFrames)
 	r.Count("roundtrip_header_frames_equal", st.rtHeaderFrames)
